@@ -1246,8 +1246,8 @@ impl Check for C26 {
     }
     fn cases(&self, tier: Tier) -> u64 {
         match tier {
-            Tier::Quick => 12_000,
-            Tier::Thorough => 1_000_000,
+            Tier::Quick => 120_000,
+            Tier::Thorough => 3_000_000,
         }
     }
     fn tape_len(&self, _t: Tier) -> usize {
